@@ -74,6 +74,7 @@ class RegWorld(World):
         self.set_ndn_log_level(bool(self.cfg.get('debug_log', False)))
         self.face = DirectFace(self._on_tx)
         self.face.local = bool(scenario.get('config', {}).get('face_local', True))
+        self.face.open_delay_us = int(scenario.get('config', {}).get('open_delay_us', 0))
         if self.fe == 'v2':
             from ndn import appv2
             self.app = appv2.NDNApp(face=self.face)
@@ -535,6 +536,8 @@ def generate(rng, seed, tier='quick'):
     if fe == 'v1' and rng.random() < 0.1:
         cfg['v1_strict_data_validator'] = True
     cfg['face_local'] = rng.random() < 0.7       # over a face that is not local, commands go to /localhop/nfd
+    if rng.random() < 0.12:
+        cfg['open_delay_us'] = rng.choice([500, 1500])      # (below the first call at t=2000: calls are made on a running face)
     if rng.random() < 0.25:
         # the wall clock moves on between two consecutive reads now and then (a tick, or a whole granule)
         cfg['wall_ticks'] = [rng.choice([0, 0, 0, 0, 400, cfg['wall_gran_us']]) for _ in range(60)]
@@ -584,6 +587,12 @@ def generate(rng, seed, tier='quick'):
         if tuple(pfx) not in used:
             used.add(tuple(pfx))
             ops.append({'at': rng.randint(2000, t + 1000), 'op': 'route', 'prefix': pfx})
+    if cfg.get('open_delay_us') and rng.random() < 0.6:
+        # a route declared while the connection is still being opened: it is a declared route of this connection
+        pfx = ['o', rng.choice(['x', 'y'])]
+        used.add(tuple(pfx))
+        ops[:] = [o for o in ops if o['op'] != 'route']       # (no further route while the start-up registrations run)
+        ops.append({'at': rng.randint(1, cfg['open_delay_us'] - 1), 'op': 'route', 'prefix': pfx})
     reconnect = rng.random() < 0.15 and bool(routes_before)
     n_pol = n_calls + len(routes_before) + 2
     policies = []
